@@ -58,6 +58,8 @@ class Frame:
 
 
 class Exec(Interp):
+    _const_depth = 0
+
     # ---- cells / places ---------------------------------------------------------------------------
     def local_cell(self, st, fr, l):
         c = fr.locals.get(l)
@@ -186,6 +188,24 @@ class Exec(Interp):
             return ('ref', self.alloc(st, ('strlit', c['v'])))
         if k == 'fn':
             return ('fn', c['def'])
+        if k in ('promoted', 'constitem'):
+            # interpret the tiny body of the promoted constant / const item
+            bid = ('P:%s:%d' % (c['of'], c['index'])) if k == 'promoted' else ('C:' + c['def'])
+            cb = self.body(bid)
+            if cb is not None and self._const_depth < 4:
+                self._const_depth += 1
+                try:
+                    outs = self.run_fn(cb, st, [], [bid], 0)
+                finally:
+                    self._const_depth -= 1
+                if len(outs) == 1:
+                    s2, v = outs[0]
+                    # constants have no side effects on the caller's state; adopt the cells they allocated
+                    st.cells.update(s2.cells)
+                    st.iv.update(s2.iv)
+                    st.bv.update(s2.bv)
+                    return v
+            return ('top', c.get('ty', '?'))
         if k == 'zst':
             ty = c['ty']
             if ty == '()':
@@ -197,7 +217,7 @@ class Exec(Interp):
         k = o['o']
         if k in ('copy', 'move'):
             c = self.place_cell(st, fr, o['pl'])
-            return self.copy_val(st, st.cells[c])
+            return self.fview(st, self.copy_val(st, st.cells[c]))
         if k == 'const':
             return self.const_val(st, o['v'])
         return self.mk_bool(st)     # runtime checks flag
@@ -207,6 +227,12 @@ class Exec(Interp):
         while v[0] == 'ref' and depth < 6:
             v = st.cells[v[1]]
             depth += 1
+        return self.fview(st, v)
+
+    def fview(self, st, v):
+        """a float value seen through what the state knows about its id (not NaN)"""
+        if v[0] == 'float' and v[3] and len(v) > 4 and v[4] in st.fnn:
+            return ('float', v[1], v[2], False, v[4])
         return v
 
     def rvalue(self, st, fr, r):
@@ -428,6 +454,19 @@ class Exec(Interp):
                 if op == 'Ne' and (a[2] < b[1] or b[2] < a[1]):
                     return self.mk_bool(st, True)
             return self.mk_bool(st)
+        if a[0] == 'float' and b[0] == 'float' and not a[3] and not b[3] and not (a[1] == a[2] and b[1] == b[2]) \
+                and all(abs(x) < 1e300 for x in (a[1], a[2], b[1], b[2])):
+            lo = hi = None
+            if op == 'Add':
+                lo, hi = a[1] + b[1], a[2] + b[2]
+            elif op == 'Sub':
+                lo, hi = a[1] - b[2], a[2] - b[1]
+            elif op == 'Mul':
+                cs = [a[1] * b[1], a[1] * b[2], a[2] * b[1], a[2] * b[2]]
+                lo, hi = min(cs), max(cs)
+            if lo is not None:
+                slack = 1e-12 * max(1.0, abs(lo), abs(hi))
+                return ('float', lo - slack, hi + slack, False)
         if a[0] == 'float' and b[0] == 'float' and not a[3] and not b[3] and a[1] == a[2] and b[1] == b[2]:
             try:
                 x, y = a[1], b[1]
@@ -483,6 +522,12 @@ class Exec(Interp):
             elif base == 'Add':
                 st.rel.add(('sumle', x, y, th))
             self.note_rel(st, base, res, x, y)
+        elif d[0] == 'isnan':
+            if truth is False:
+                st.fnn.add(d[1])
+        elif d[0] == 'isfinite':
+            if truth is True:
+                st.fnn.add(d[1])
         elif d[0] == 'boolop':
             _, op, p, q = d
             if op == 'BitAnd' and truth:
@@ -744,7 +789,7 @@ class Exec(Interp):
             if cb is None and res.get('def'):
                 cb = self.body('G:' + res['def'])      # generic caller: the callee's generic body
             if cb is not None:
-                if depth >= self.max_depth or res['id'] in chain:
+                if depth >= self.max_depth or chain.count(res['id']) >= 3:
                     self.undecided_callees[res['id']] = 'recursion/depth'
                     return [ret(st, self.top_of(st, body.locals[t['dest']['l']]['tyj']) if not t['dest']['p'] else self.top_of_tystr(st, t['dest']['ty']))]
                 outs = self.run_fn(cb, st, args, chain + [res['id']], depth + 1)
@@ -764,6 +809,19 @@ class Exec(Interp):
             self.havoc_mut(st, a)
         val = self.top_of(st, body.locals[t['dest']['l']]['tyj']) if not t['dest']['p'] else self.top_of_tystr(st, t['dest']['ty'])
         return [ret(st, val)]
+
+    def call_value(self, st, fnv, args, chain, depth):
+        """Call a function item or closure value with already evaluated arguments; None if its body is not available."""
+        if fnv[0] == 'fn':
+            cb = self.body(fnv[1]) or self.body('G:' + fnv[1])
+            if cb is not None and cb.arg_count == len(args) and chain.count(cb.id) < 3:
+                return self.run_fn(cb, st, args, chain + [cb.id], depth + 1)
+            return None
+        if fnv[0] == 'closure':
+            cb = self.body(fnv[1])
+            if cb is not None and chain.count(cb.id) < 3:
+                return self.run_fn(cb, st, [fnv] + args, chain + [cb.id], depth + 1)
+        return None
 
     def havoc_mut(self, st, v, depth=0):
         # conservative: data behind references handed to an unknown callee becomes unknown
@@ -832,6 +890,22 @@ class Exec(Interp):
             return [(st, self.dest_top(st, fr, t))]
         if d == 'std::hint::must_use' and A:
             return [(st, A[0])]
+        if d.startswith('std::ops::RangeInclusive::<') and name == 'new' and len(A) == 2:
+            return [(st, ('adt', 'std::ops::RangeInclusive', None, {'RangeInclusive': {'start': self.alloc(st, A[0]), 'end': self.alloc(st, A[1])}}))]
+        if name == 'contains' and (d.startswith('std::ops::RangeInclusive::<') or d.startswith('std::ops::Range::<')) and len(A) == 2:
+            rv = dv(A[0])
+            x = dv(A[1])
+            incl = 'Inclusive' in d
+            if rv[0] == 'adt' and x[0] == 'float':
+                fl = next(iter(rv[3].values()))
+                lo = self.fview(st, st.cells[fl['start']]) if 'start' in fl else None
+                hi = self.fview(st, st.cells[fl['end']]) if 'end' in fl else None
+                if lo and hi and lo[0] == 'float' and hi[0] == 'float' and not lo[3] and not hi[3]:
+                    if not x[3] and x[1] >= lo[2] and (x[2] <= hi[1] if incl else x[2] < hi[1]):
+                        return [(st, self.mk_bool(st, True))]
+                    if not x[3] and (x[2] < lo[1] or (x[1] > hi[2] if incl else x[1] >= hi[2])):
+                        return [(st, self.mk_bool(st, False))]
+            return [(st, self.mk_bool(st))]
         # ---- Try / ? -------------------------------------------------------------------------------------
         if name == 'branch' and tr.endswith('Try'):
             v = dv(A[0])
@@ -943,12 +1017,32 @@ class Exec(Interp):
         # ---- floats ------------------------------------------------------------------------------------------------
         if ('::<impl f64>::' in d or '::<impl f32>::' in d):
             a0 = A[0] if A and A[0][0] == 'float' else ('float', -INF, INF, True)
+            fid = a0[4] if len(a0) > 4 else None
             if name in ('is_finite', 'is_nan', 'is_infinite', 'is_normal', 'is_sign_negative', 'is_sign_positive'):
                 if name == 'is_finite' and not a0[3] and a0[1] > -INF and a0[2] < INF:
                     return [(st, self.mk_bool(st, True))]
                 if name == 'is_nan' and not a0[3]:
                     return [(st, self.mk_bool(st, False))]
+                if name == 'is_nan' and fid is not None and fid == getattr(self, 'force_nan', None):
+                    return [(st, self.mk_bool(st, True))]
+                if name == 'is_nan' and fid is not None:
+                    return [(st, self.mk_bool(st, None, ('isnan', fid)))]
+                if name == 'is_finite' and fid is not None:
+                    return [(st, self.mk_bool(st, None, ('isfinite', fid)))]
+                if name in ('is_sign_negative', 'is_sign_positive') and not a0[3]:
+                    neg = name == 'is_sign_negative'
+                    if a0[2] < 0:
+                        return [(st, self.mk_bool(st, neg))]
+                    if a0[1] > 0:
+                        return [(st, self.mk_bool(st, not neg))]
                 return [(st, self.mk_bool(st))]
+            if name == 'clamp' and len(A) == 3 and A[1][0] == 'float' and A[2][0] == 'float' and A[1][1] == A[1][2] and A[2][1] == A[2][2]:
+                return [(st, ('float', max(a0[1], A[1][1]), min(a0[2], A[2][1]), a0[3]))]
+            if name in ('min', 'max') and len(A) == 2 and A[1][0] == 'float':
+                b0 = A[1]
+                if name == 'max':
+                    return [(st, ('float', max(a0[1], b0[1]), max(a0[2], b0[2]), a0[3] and b0[3]))]
+                return [(st, ('float', min(a0[1], b0[1]), min(a0[2], b0[2]), a0[3] and b0[3]))]
             if name == 'sqrt':
                 if not a0[3] and a0[1] >= 0:
                     return [(st, ('float', math.sqrt(a0[1]) * (1 - 1e-15), math.sqrt(a0[2]) * (1 + 1e-15) if a0[2] < INF else INF, False))]
@@ -1012,6 +1106,19 @@ class Exec(Interp):
                 if 'Err' in v[2]:
                     s2 = st.copy()
                     outs.append((s2, self.mk_result(s2, None, ('top', 'err'))))
+                return outs
+            if name == 'map_or' and v and v[0] == 'adt' and v[2] is not None and len(A) == 3:
+                outs = []
+                good = 'Ok' if v[1].endswith('Result') else 'Some'
+                if v[2] - {good}:
+                    outs.append((st.copy(), A[1]))
+                if good in v[2]:
+                    s2 = st.copy()
+                    res2 = self.call_value(s2, A[2], [s2.cells[v[3][good]['0']]], chain, depth)
+                    if res2 is None:
+                        outs.append((s2, self.dest_top(s2, fr, t)))
+                    else:
+                        outs.extend(res2)
                 return outs
             if name == 'unwrap_or' and v and v[0] == 'adt' and v[2] is not None and len(A) == 2:
                 outs = []
